@@ -54,6 +54,17 @@ def _replay_sdf_one(data):
     try:
         text = m.to_sdf_string()
         d = tempfile.mkdtemp()
+        # the format is chosen from the file name's suffix in any letter case (save and load must choose alike)
+        for alt in ("M.SDF", "m.Sdf"):
+            fa = os.path.join(d, alt)
+            m.save(fa)
+            head = open(fa).read().splitlines()
+            ma = Molecule.load(fa)
+            os.remove(fa)
+            if len(head) < 4 or head[3][34:39] != "V2000":
+                bad.append("file %s written by save() is not an SDF record (line 4: %r)" % (alt, head[3] if len(head) > 3 else None))
+            elif isinstance(ma, list) or [e.atomic_number for e in ma.elements] != [e.atomic_number for e in m.elements]:
+                bad.append("file %s does not read back as the molecule written" % alt)
         f = os.path.join(d, "m.sdf")
         # the path held another molecule before (written and read): what is read afterwards is what the file holds now
         other = Molecule.from_arrays(np.array([e.atomic_number for e in m.elements][::-1] + [2]), np.vstack([np.asarray(m.positions, float)[::-1] + 0.25, [[9.0, 9.0, 9.0]]]))
@@ -113,6 +124,13 @@ def replay_xyz(data):
     bad = []
     try:
         d = tempfile.mkdtemp()
+        for alt in ("M.XYZ", "m.Xyz"):
+            fa = os.path.join(d, alt)
+            m.save(fa)
+            ma = Molecule.load(fa)
+            os.remove(fa)
+            if [e.atomic_number for e in ma.elements] != [e.atomic_number for e in m.elements] or not np.allclose(np.asarray(ma.positions, float), m.positions, rtol=0, atol=1e-9 + 1e-15 * np.abs(m.positions).max()):
+                bad.append("file %s does not read back as the molecule written" % alt)
         f = os.path.join(d, "m.xyz")
         # the path held another molecule before (written and read): what is read afterwards is what the file holds now
         other = Molecule.from_arrays(np.array([e.atomic_number for e in m.elements][::-1] + [2]), np.vstack([np.asarray(m.positions, float)[::-1] + 0.25, [[9.0, 9.0, 9.0]]]))
@@ -196,7 +214,7 @@ def run(ctx):
         data = {"Z": [6, 8, 17, 1], "pos": [[0.0, -0.00005, 0.12345], [-1.5, 12.3456, -123.4567], [1234.5678, -8123.0666, 0.5], [2.25, 3.5, -4.75]]}
         for fmt, rep in (("sdf", replay_sdf), ("xyz", replay_xyz)):
             r, det = rep(dict(data, _single=True))
-            c.record("%s: file written, read, rewritten with another molecule and read again (real code)" % fmt, "counterexample" if r else "holds", nontrivial=True, method="ground instances")
+            c.record("%s: file written, read, rewritten with another molecule and read again; suffix in lower, upper and mixed case (real code)" % fmt, "counterexample" if r else "holds", nontrivial=True, method="ground instances")
             if r:
                 c.violation("%s:file" % fmt, "%s file route: %s" % (fmt.upper(), det[0]), dict(data, _single=True), rep)
     secs = [("files", files), ("sdf-atom-line", guarded("sdf-atom-line", sdf_atom_lines, "sdf")), ("sdf-counts-bonds", guarded("sdf-counts-bonds", sdf_counts_bonds, "sdf")),
